@@ -1097,6 +1097,86 @@ def f(x: fp.Real, n: int) -> fp.Real:
     return t + j + w + x
 ''', 'f', ['real', ('int', [0, 1, 2])], ['analysis', 'constfold', 'simplify'])
 
+# ---- inline / lift_context shapes reported against the unmodified tree by the C09 seeding agent ------------------------------
+prog('lift_ctor_reads_local', '''
+@fp.fpy
+def f(x: fp.Real, y: fp.Real) -> fp.Real:
+    n = 3
+    with fp.MPFloatContext(n):
+        r = x * y
+    return r
+''', 'f', ['real', 'real'], ['lift_context', 'context', 'no_ref', 'no_analysis'])
+
+prog('lift_ctor_reads_reassigned_arg', '''
+@fp.fpy
+def f(x: fp.Real, n: int) -> fp.Real:
+    n = 3
+    with fp.MPFloatContext(n):
+        r = x * x
+    return r
+''', 'f', ['real', ('int', [2])], ['lift_context', 'context', 'no_ref', 'no_analysis'])
+
+prog('lift_ctor_arith_under_func_ctx', '''
+@fp.fpy(ctx=fp.MPFixedContext(3, fp.RM.RTZ))
+def f(x: fp.Real) -> fp.Real:
+    with fp.MPFixedContext(-2 - 1, fp.RM.RTZ):
+        y = fp.round(x)
+    return y
+''', 'f', ['real'], ['lift_context', 'context', 'no_ref', 'no_analysis'])
+
+prog('inline_callee_free_var_name', '''
+x2 = 0.5
+
+@fp.fpy
+def g(x: fp.Real) -> fp.Real:
+    return x + x2
+
+@fp.fpy
+def f(x: fp.Real) -> fp.Real:
+    return g(x) * 2
+''', 'f', ['real'], ['inline', 'names', 'no_ref', 'no_analysis'])
+
+prog('inline_call_in_with_header', '''
+@fp.fpy(ctx=fp.REAL)
+def sel(p: fp.Real):
+    return fp.MPFixedContext(p, fp.RM.RTZ)
+
+@fp.fpy
+def f(x: fp.Real, p: int) -> fp.Real:
+    with fp.MPFixedContext(2, fp.RM.RTZ):
+        with sel(p - 1):
+            y = fp.round(x)
+    return y
+''', 'f', ['real', ('int', [-1, 0])], ['inline', 'context', 'no_ref', 'no_analysis'])
+
+prog('inline_call_in_untaken_ifexpr', '''
+@fp.fpy
+def head(xs: list[fp.Real]) -> fp.Real:
+    return xs[0]
+
+@fp.fpy
+def f(xs: list[fp.Real]) -> fp.Real:
+    return head(xs) if len(xs) > 0 else 0
+''', 'f', [('list', [0, 1, 2])], ['inline', 'order', 'no_ref', 'no_analysis'])
+
+prog('inline_underscore_param_drops_call', '''
+@fp.fpy
+def g(a: fp.Real, _: fp.Real) -> fp.Real:
+    return a
+
+@fp.fpy
+def bump(xs: list[fp.Real]) -> fp.Real:
+    xs[0] = xs[0] + 1
+    return xs[0]
+
+@fp.fpy
+def f(x: fp.Real) -> fp.Real:
+    ys = [x]
+    t = g(x, bump(ys))
+    return ys[0] + t
+''', 'f', ['real'], ['inline', 'order', 'alias', 'no_ref', 'no_analysis'])
+
+
 def namespace():
     """contexts the corpus programs refer to by name"""
     import fpy2 as fp
